@@ -25,8 +25,8 @@ ASSUMPTIONS = [
     "RecursionError, AttributeError, KeyError, TypeError; all single, double and higher combinations; BaseException-only faults and a raising "
     "code filter are not in the property's list and are not injected",
     "monkeytype.tracing.sys is replaced by a FakeSys object (the engine's own tracer must not be displaced by a real sys.setprofile); "
-    "rng: the tracer must not draw from the process-wide generator of the `random` module (the traced program's own random numbers come from it); "
-    "listed finding C03-sampling-draws-from-global-rng covers a configured sample rate >= 1, so only 'no rate' (None, 0) is asserted while it is listed",
+    "rng: the tracer must not draw from the process-wide generator of the `random` module (the traced program's own random numbers come from it), "
+    "with or without a sample rate; a generator of the tracer's own is allowed",
     "monkeytype.trace(config) is checked to thread logger, filter, sample rate and max_typed_dict_size (symbolic ints) to the tracer",
 ]
 
